@@ -140,6 +140,7 @@ type rJobOp struct {
 	key   string
 	after string
 	limit int
+	big   bool // put: value above the chunking threshold
 }
 
 type rJob struct {
@@ -154,7 +155,11 @@ func genRaftJobs(tp *Tape, n int) []rJob {
 	for i := 0; i < n; i++ {
 		if tp.Pick(5) < 2 { // plain op
 			k := c08Keys[tp.Pick(len(c08Keys))]
-			jobs = append(jobs, rJob{ops: []rJobOp{{kind: []string{"put", "put", "del", "get"}[tp.Pick(4)], key: k}}})
+			op := rJobOp{kind: []string{"put", "put", "del", "get"}[tp.Pick(4)], key: k}
+			if op.kind == "put" && tp.Pick(12) == 11 {
+				op.big = true
+			}
+			jobs = append(jobs, rJob{ops: []rJobOp{op}})
 			continue
 		}
 		j := rJob{txn: true, ro: tp.Pick(6) == 5, rollback: tp.Pick(8) == 7}
@@ -234,6 +239,12 @@ func RunRaftWorkload(rc *RunCtx, h *RaftH, prop string) *RaftRun {
 		s.Note("%s", l)
 	}
 	ctx := context.Background()
+	sv := func(b []byte) string { // big values stay out of traces
+		if len(b) > 32 {
+			return fmt.Sprintf("%s..(%d bytes)", b[:8], len(b))
+		}
+		return string(b)
+	}
 	propose := func(p *rProposal) {
 		p.seq = len(rr.Proposals)
 		rr.Proposals = append(rr.Proposals, p)
@@ -252,9 +263,14 @@ func RunRaftWorkload(rc *RunCtx, h *RaftH, prop string) *RaftRun {
 					case "put":
 						nval++
 						v := []byte(fmt.Sprintf("v%d", nval))
+						if op.big {
+							// above the chunking threshold: the entry reaches the log as several chunks
+							v = append(append(v, '#'), bytes.Repeat([]byte{'x'}, 600*1024)...)
+							s.Probe("chunked_put")
+						}
 						p := &rProposal{kind: "put", key: op.key, val: v}
 						propose(p)
-						note("%s plain put %s=%s (proposed #%d)", name, op.key, v, p.seq)
+						note("%s plain put %s=%s (proposed #%d)", name, op.key, sv(v), p.seq)
 						p.err = b.Put(ctx, &physical.Entry{Key: op.key, Value: v})
 						p.done = true
 					case "del":
@@ -272,7 +288,7 @@ func RunRaftWorkload(rc *RunCtx, h *RaftH, prop string) *RaftRun {
 								r.val, r.found = e.Value, true
 							}
 							rr.Reads = append(rr.Reads, r)
-							note("%s plain get %s=%s @%d", name, op.key, r.val, idx)
+							note("%s plain get %s=%s @%d", name, op.key, sv(r.val), idx)
 						}
 					}
 					continue
@@ -312,11 +328,11 @@ func RunRaftWorkload(rc *RunCtx, h *RaftH, prop string) *RaftRun {
 							o.val, o.found = e.Value, true
 						}
 						if own, mine := t.own[op.key]; mine && ((own == nil) == o.found || !bytes.Equal(own, o.val)) {
-							s.Violate(prop, "own-write-not-visible", map[string]any{"backend": "raft"}, "T%d wrote %q=%q but reads (%q,%v)", t.id, op.key, own, o.val, o.found)
+							s.Violate(prop, "own-write-not-visible", map[string]any{"backend": "raft"}, "T%d wrote %q=%q but reads (%q,%v)", t.id, op.key, sv(own), sv(o.val), o.found)
 							return
 						}
 						t.ops = append(t.ops, o)
-						note("%s T%d get %s=%s", name, t.id, op.key, o.val)
+						note("%s T%d get %s=%s", name, t.id, op.key, sv(o.val))
 					case "put":
 						nval++
 						v := []byte(fmt.Sprintf("v%d", nval))
@@ -491,6 +507,10 @@ func CheckRaftSerial(rc *RunCtx, h *RaftH, rr *RaftRun, prop string) {
 			continue
 		}
 		kind, writes, _, _ := raft.VerifLogKind(l)
+		isChunk, lastChunk := raft.VerifChunk(l)
+		if isChunk && !lastChunk {
+			continue // the proposal takes effect with its last chunk
+		}
 		if pi >= len(rr.Proposals) {
 			panic(fmt.Sprintf("raft log has more command entries than proposals (%s at %d)", kind, l.Index))
 		}
@@ -499,7 +519,11 @@ func CheckRaftSerial(rc *RunCtx, h *RaftH, rr *RaftRun, prop string) {
 		// sanity: the log entry is the proposal we think it is
 		switch p.kind {
 		case "put":
-			if kind != "plain" || !bytes.Equal(writes[p.key], p.val) {
+			if isChunk {
+				if len(p.val) < 512*1024 {
+					panic(fmt.Sprintf("log/proposal mismatch at index %d: chunked entry vs small put %s", l.Index, p.key))
+				}
+			} else if kind != "plain" || !bytes.Equal(writes[p.key], p.val) {
 				panic(fmt.Sprintf("log/proposal mismatch at index %d: %s %v vs put %s", l.Index, kind, writes, p.key))
 			}
 		case "del":
